@@ -137,7 +137,8 @@ func (g *c03gen) fn(level int, scopeInts, scopeFuncs []string, method bool) *ref
 			f.Body = append(f.Body, &ref.Print{E: &ref.Call{Callee: &ref.Var{Name: name}, Args: g.argList(inner, 1+g.rng.Intn(2), true)}})
 		case r == 8:
 			refs := []ref.Expr{&ref.ArgRef{Kind: "\\"}, &ref.ArgRef{Kind: "\\N", N: 1 + g.rng.Intn(3)}, &ref.ArgRef{Kind: "\\0"}, &ref.ArgRef{Kind: "\\_"},
-				&ref.ArgRef{Kind: "\\name", Name: []string{"ka", "kb", "kz", "kq"}[g.rng.Intn(4)]}}
+				&ref.ArgRef{Kind: "\\name", Name: []string{"ka", "kb", "kz", "kq"}[g.rng.Intn(4)]},
+				&ref.ArgRef{Kind: "\\_.keys"}, &ref.ArgRef{Kind: "\\_.values"}, &ref.ArgRef{Kind: "\\_.items"}}
 			f.Body = append(f.Body, &ref.Print{E: refs[g.rng.Intn(len(refs))]})
 			g.features["arg-ref"] = true
 		case r == 9:
@@ -181,8 +182,49 @@ func (g *c03gen) program() []ref.Expr {
 	}
 	nst := 5 + g.rng.Intn(9)
 	haveObj := false
+	// focus mode: a factory whose returned closure reads enclosing variables through 2–3 intermediate
+	// frames is created first, and the statements that follow favour reassignments of those variables
+	// and further calls of the kept closures (call, reassign, call again, new closure from the same factory)
+	focus := g.rng.Intn(3) == 0
+	var mk func(cn string)
+	if focus {
+		g.features["focus-capture-through-frames"] = true
+		leaf := &ref.Func{Body: []ref.Expr{&ref.Print{E: &ref.ArrLit{Elems: []ref.Expr{&ref.Var{Name: "xa"}, g.atom(ints), g.atom(ints)}}},
+			&ref.ArrLit{Elems: []ref.Expr{g.atom(ints), &ref.Var{Name: "xa"}}}}}
+		depth := 2 + g.rng.Intn(2)
+		var factory *ref.Func
+		if depth == 2 {
+			factory = &ref.Func{Params: []string{"xa"}, Body: []ref.Expr{&ref.Return{E: leaf}}}
+		} else {
+			mid := &ref.Func{Params: []string{"pa"}, Body: []ref.Expr{&ref.Print{E: &ref.ArrLit{Elems: []ref.Expr{&ref.Var{Name: "pa"}, g.atom(ints)}}}, &ref.Return{E: leaf}}}
+			factory = &ref.Func{Params: []string{"xa"}, Body: []ref.Expr{&ref.Return{E: mid}}}
+		}
+		prog = append(prog, &ref.Assign{Name: "fz", E: factory})
+		mk = func(cn string) {
+			arg := []ref.Arg{{Kind: "pos", E: &ref.Int{V: 1 + g.rng.Intn(9)}}}
+			if depth == 2 {
+				prog = append(prog, &ref.Assign{Name: cn, E: &ref.Call{Callee: &ref.Var{Name: "fz"}, Args: arg}})
+			} else {
+				prog = append(prog, &ref.Assign{Name: cn + "m", E: &ref.Call{Callee: &ref.Var{Name: "fz"}, Args: arg}})
+				prog = append(prog, &ref.Assign{Name: cn, E: &ref.Call{Callee: &ref.Var{Name: cn + "m"}, Args: []ref.Arg{{Kind: "pos", E: &ref.Int{V: 10 + g.rng.Intn(9)}}}}})
+			}
+			closures = append(closures, cn)
+		}
+		mk("cl0")
+		prog = append(prog, &ref.Print{E: &ref.Call{Callee: &ref.Var{Name: "cl0"}}})
+	}
 	for i := 0; i < nst; i++ {
-		switch r := g.rng.Intn(13); {
+		r := g.rng.Intn(13)
+		if focus && g.rng.Intn(2) == 0 {
+			r = 6 + g.rng.Intn(2)
+			if g.rng.Intn(5) == 0 {
+				cn := fmt.Sprintf("cl%d", len(closures))
+				mk(cn)
+				prog = append(prog, &ref.Print{E: &ref.Call{Callee: &ref.Var{Name: cn}}})
+				continue
+			}
+		}
+		switch {
 		case r < 3:
 			name := g.pick(c03funcs)
 			f := g.fn(1, ints, funcs, false)
@@ -281,7 +323,7 @@ func init() {
 
 func runC03(w *fw.W) {
 	var ip *interp.Interp
-	nb := w.Pick(80, 3000)
+	nb := w.Pick(400, 8000)
 	for b := 0; b < nb; b++ {
 		if !w.Take() {
 			continue
